@@ -624,7 +624,10 @@ def run_scenario(pane, sc, bound, res, only_prefix=None):
                 fn = cls_.__dict__.get(meth)
                 if fn is not None:
                     _codes(fn.__code__, watched)
-    ex = sched.Explorer(make, watched, bound, max_schedules=60000)
+    # (a schedule of the real make_converter has thousands of scheduling points: at bound 2 the cap is lower there, so that the
+    #  thorough tier ends in tens of minutes; a capped bound is reported as such and the bound below it is completed, see below)
+    cap = 15000 if (sc['kind'] == 'make_converter' and bound >= 2) else 60000
+    ex = sched.Explorer(make, watched, bound, max_schedules=cap)
     if only_prefix is not None:
         run, problem, outcome = ex.run_once(only_prefix)
         run2, problem2, outcome2 = ex.run_once(only_prefix)
